@@ -18,4 +18,13 @@ SimParents == [h \in SimH |-> CASE h = "dA" -> {"vmd"} [] h = "dB" -> {"ch", "dA
                                 [] h = "ch" -> {"vmd"} [] OTHER -> {}]
 McRemovable == McH
 SimRemovable == McH
+AllKinds == TxKinds
+\* tiny universe for the life-cycle purposes of one dynamic descriptor
+TrkH == {"ch", "dB"}
+TrkKind == [h \in TrkH |-> IF h = "dB" THEN "metric" ELSE "comp"]
+TrkInitParent == [h \in TrkH |-> IF h = "ch" THEN "ext" ELSE "none"]
+TrkParents == [h \in TrkH |-> IF h = "dB" THEN {"ch"} ELSE {}]
+TrkRemovable == {"dB"}
+TrkCH == {}
+TrkCtxOf == <<>>
 ====
